@@ -59,6 +59,13 @@ check("C13", "fault_enumeration",
       "Oracle is a reconstruction search independent of cutplace; acceptance of records that themselves contain CR/LF is unjudged.",
       "exhaustive execution of the real reader under a reconstruction oracle + single-character fault injection", "DESIGN.md 5/C13")
 
+check("C12", "exploration",
+      "All 4480 combinations of item delimiter, quote, escape, quoting and line delimiter are offered to Cid.read; for every "
+      "accepted format generated tables over that format's own special characters are written by the real writer and read "
+      "back by the real reader (rowio level and cutplace.Writer/rows level); the recorded round trip must be the identity.",
+      "The round trip through the real code is its own oracle; formats the loader refuses are counted, not judged.",
+      "round-trip monitor over executions of the real writer and reader for every accepted configuration", "DESIGN.md 5/C12")
+
 NOT_YET = "check not built yet in this session; see DESIGN.md section 5 for the planned monitor"
 
 def main():
